@@ -13,11 +13,18 @@ Three families of cases ((C) = a handful of hand-made corner cases of the value 
   (B) the pipeline's own random graphs with the pipeline's rich configurations (instance caps,
       target classes -- also classes without any instance --, empty-shape removal) x the eight
       option pairs.
+Before them the regression cases of repaired findings (corpus/C17/decor/*.json) are replayed through the same
+comparison and oracle.  The options must not make an extraction fail that succeeds without them: such a crash is a
+failing input unless its data-computed root cause (`root_cause`) is a listed known finding -- and the root cause of
+C17-F4 is never computed once the source carries the `candidate is None` guard (the model is asked which text of
+`_serialize_example` the constants were generated from).  `install` / `model_other` / `c04_cases` make the same
+runner a run kind ("decor") of the pipeline-property engine: C04's crash oracle covers the two options too.
 An independent reading of the property on the real text alone is part of every case as well:
 the decorated text with the decorations removed (regular expressions written from the
 serialiser's templates, not from the model) must equal the real text of the same run with both
 options off.
 """
+import json
 import os
 import random
 import re
@@ -45,8 +52,69 @@ def close_model():
 
 
 # --------------------------------------------------------------------------
+# finding C17-F4 (a printed shape without instances + examples_mode 'shape'/'all' -> AttributeError)
+# --------------------------------------------------------------------------
+
+RC_EXAMPLE_NONE = "rc_example_none"
+_GUARD = {}
+
+
+def example_guard_present():
+    """Gen.Consts.c_example_none_guard, asked from the model binary: True iff the source tree the constants were
+    generated from carries `if candidate is None: return ""` in ShexSerializer._serialize_example (tools/gen_consts.py
+    accepts exactly the two texts).  With the guard the crash of C17-F4 is never excused."""
+    pid = os.getpid()
+    if pid not in _GUARD:
+        _GUARD.clear()
+        _GUARD[pid] = _mb().call("pipe_decor_info", [["x"]])[0][0] == "1"
+    return _GUARD[pid]
+
+
+def classes_without_instances(ts, cfg):
+    """requested target classes no node of the graph is typed with (computed from the input data)"""
+    if cfg["all_classes"]:
+        return []
+    typed = {o[1] for (_s, p, o) in ts if p == cfg["tau"] and o[0] in ("I", "B")}
+    return [c for c in cfg["targets"] if c not in typed]
+
+
+def root_cause(ts, cfg, res):
+    """data-computed root cause of an exception of a decorated run: RC_EXAMPLE_NONE iff the source has no guard,
+    the exception is the AttributeError raised inside prefixize_uri_if_possible, a shape example is asked for, and
+    a shape without instances is printed (a requested target class without instances, empty shapes kept)."""
+    if res[0] != "err" or res[1] != "AttributeError":
+        return None
+    if len(res) > 2 and res[2] and not res[2].endswith(":prefixize_uri_if_possible"):
+        return None
+    if cfg.get("examples_mode") not in ("shape", "all") or cfg["remove_empty_shapes"]:
+        return None
+    if not classes_without_instances(ts, cfg):
+        return None
+    if example_guard_present():
+        return None
+    return RC_EXAMPLE_NONE
+
+
+# --------------------------------------------------------------------------
 # cases
 # --------------------------------------------------------------------------
+
+def corpus_items():
+    """regression cases of repaired findings (corpus/C17/decor/*.json: {kind: decor, ts, cfg, origin}); replayed
+    first on every run, through the same comparison and oracle as the generated cases"""
+    d = os.path.join(core.VERIF, "corpus", "C17", "decor")
+    out = []
+    if os.path.isdir(d):
+        for fn in sorted(os.listdir(d)):
+            if fn.endswith(".json"):
+                with open(os.path.join(d, fn)) as f:
+                    rp = json.load(f)
+                cfg = dict(rp["cfg"])
+                cfg["thr"] = tuple(cfg["thr"])
+                cfg["ns"] = [tuple(x) for x in cfg["ns"]]
+                out.append({"ts": pipeprops.tuplify(rp["ts"]), "cfg": cfg, "origin": ["corpus", fn, None]})
+    return out
+
 
 def pipe_triples(c17_triples):
     """C17's (sk, sid, p, ok, o1, o2) -> pipe.py's ((sk, sid), p, o)"""
@@ -90,7 +158,7 @@ def cfg_for_c17_graph(r, case, dmi, mode, inv, k):
 
 def gen_items(tier, seed, c17_cases):
     """list of items {ts, cfg, doc, origin}"""
-    items = []
+    items = corpus_items()
     for case in c17_cases:
         r = random.Random("decor/%d/%s" % (seed, case.get("idx")))
         ts = pipe_triples(case["triples"])
@@ -188,7 +256,8 @@ def strip_real(text):
 def run_item(item):
     ts, cfg = item["ts"], item["cfg"]
     impl = impl_text(ts, cfg)
-    res = {"impl": impl[:2], "agree": None, "model": None, "dom": None, "struct": None}
+    res = {"impl": impl[:2], "where": impl[2] if len(impl) > 2 else "", "agree": None, "model": None, "dom": None,
+           "struct": None}
     m = model_text(_mb(), ts, cfg)
     res["model"] = m[:2]
     res["dom"] = m[2]
@@ -216,9 +285,13 @@ def stream(tier, seed, c17_cases, findings, only_item=None):
         results = [x for c in core.pool_map(run_chunk, chunks, chunksize=1) for x in c]
     else:
         results = run_chunk(items)
-        close_model()
+    guard = example_guard_present()        # asked after the pool has forked: workers own their model processes
+    close_model()
     st = {"n": len(items), "corr_fail": [], "spec_fail": [], "known_hits": {}, "vm": [],
-          "cov": {"cases": len(items), "impl_ok": 0, "impl_err": {}, "in_strip_domain": 0, "with_stem": 0,
+          "cov": {"cases": len(items), "corpus_cases_replayed_first": sum(1 for i in items if (i.get("origin") or [None])[0] == "corpus"),
+                  "example_none_guard_in_source": guard,
+                  "shape_examples_asked_with_instanceless_shape_printed": 0,
+                  "impl_ok": 0, "impl_err": {}, "in_strip_domain": 0, "with_stem": 0,
                   "with_constraint_examples": 0, "with_shape_examples": 0, "decorated_runs": 0,
                   "by_mode": {}, "by_report": {}, "inverse": 0, "target_classes": 0, "or_enabled": 0}}
     cov = st["cov"]
@@ -233,6 +306,9 @@ def stream(tier, seed, c17_cases, findings, only_item=None):
         cov["or_enabled"] += (not cfg["disable_or_statements"])
         if res["impl"][0] == "ok":
             cov["impl_ok"] += 1
+            cov["shape_examples_asked_with_instanceless_shape_printed"] += bool(
+                cfg.get("examples_mode") in ("shape", "all") and not cfg["remove_empty_shapes"]
+                and classes_without_instances(item["ts"], cfg))
             cov["in_strip_domain"] += bool(res["dom"])
             if res.get("n_decor"):
                 cov["decorated_runs"] += 1
@@ -252,8 +328,7 @@ def stream(tier, seed, c17_cases, findings, only_item=None):
             plain["examples_mode"] = None
             base = impl_text(item["ts"], plain)
             if base[0] == "ok":
-                if "C17-F4" in findings and res["impl"][1] == "AttributeError" and cfg.get("examples_mode") in ("shape", "all") \
-                        and not cfg["all_classes"]:
+                if "C17-F4" in findings and root_cause(item["ts"], cfg, ("err", res["impl"][1], res["where"])) == RC_EXAMPLE_NONE:
                     st["known_hits"]["C17-F4"] = st["known_hits"].get("C17-F4", 0) + 1
                 else:
                     st["spec_fail"].append(("extraction raises %s with detect_minimal_iri=%r, examples_mode=%r and succeeds "
@@ -293,3 +368,58 @@ def vm_cases(items, k=2):
         out.append(("pipe_shexc_decor", t, mb.call("pipe_shexc_decor", t)))
     mb.close()
     return out
+
+
+# --------------------------------------------------------------------------
+# C04 (extraction never crashes): the same runner as a run kind of the pipeline-property engine
+# --------------------------------------------------------------------------
+
+KIND = "decor"
+
+
+def install():
+    """make `pipe.impl_other(ts, cfg, "decor")` run Shaper(..., detect_minimal_iri, examples_mode).shex_graph
+    (wraps whatever pipe.impl_other is at the time of the call)"""
+    prev = pipe.impl_other
+    if getattr(prev, "_decor_installed", False):
+        return
+
+    def impl_other(ts, cfg, kind, timeout=10.0):
+        if kind == KIND:
+            return impl_text(ts, cfg)
+        return prev(ts, cfg, kind, timeout)
+
+    impl_other._decor_installed = True
+    pipe.impl_other = impl_other
+
+
+def model_other(ts, cfg, kind, impl, prev=None):
+    """hook of pipeprops._work for run kind "decor": the model's text (Model/RunDecor.v) and whether it agrees with
+    the implementation (outcome; text byte for byte)"""
+    if kind != KIND:
+        return prev(ts, cfg, kind, impl) if prev is not None else (("n/a", ""), True)
+    m = model_text(_mb(), ts, cfg)
+    return ("decor-model", "decorated ShExC text, byte for byte (Model/RunDecor.v)", m[0], m[1]), \
+        (impl[0] == m[0] and impl[1] == m[1])
+
+
+def c04_cases(tier, rnd, graph_gens, n_quick=700, n_thorough=6000):
+    """cases {"runs": [(ts, cfg, "decor")]}: the graphs of C04's generators x random accepted configurations
+    (pipeprops.random_cfg: 2^6 switches, report modes, caps, target classes -- also classes without instances --,
+    empty-shape removal on/off, namespaces) x OR on/off x examples_mode {None, shape, cons, all} x
+    detect_minimal_iri.  Every case sets at least one of the two options."""
+    n = n_thorough if tier == "thorough" else n_quick
+    cases = []
+    for i in range(n):
+        r = random.Random(rnd.getrandbits(48))
+        ts = graph_gens[i % len(graph_gens)](r)
+        cfg = pipeprops.random_cfg(r, ts, i)
+        if r.random() < 0.3:
+            cfg["disable_or_statements"] = False
+            cfg["allow_redundant_or"] = r.random() < 0.5
+        cfg["examples_mode"] = MODES[i % 4]
+        cfg["detect_minimal_iri"] = (MODES[i % 4] is None) or r.random() < 0.5
+        if i % 5 == 0 and not cfg["all_classes"]:
+            cfg["remove_empty_shapes"] = False        # shapes without instances get printed
+        cases.append({"runs": [(ts, cfg, KIND)], "meta": {"stream": "decor", "i": i}})
+    return cases
